@@ -14,6 +14,7 @@ import shutil
 import subprocess
 import sys
 import time
+import uuid
 from concurrent.futures import ThreadPoolExecutor
 
 VERIF = os.path.dirname(os.path.dirname(os.path.abspath(__file__)))
@@ -135,7 +136,7 @@ def run_tlc(module, cfg, env=None, workers=1, timeout=900, cwd=TLA, extra=None, 
             simulate=None, coverage=False, deque=False):
     r = TlcResult()
     t0 = time.time()
-    md = metadir or os.path.join(OUT, "tlc-md", "%s-%d-%d" % (os.path.basename(cfg), os.getpid(), int(t0 * 1000) % 10 ** 9))
+    md = metadir or os.path.join(OUT, "tlc-md", "%s-%d-%s" % (os.path.basename(cfg), os.getpid(), uuid.uuid4().hex[:12]))
     os.makedirs(md, exist_ok=True)
     cmd = ["java", "-XX:+UseParallelGC", "-Xss64m", "-Xmx" + xmx]
     if deque:
